@@ -1,5 +1,6 @@
 import CssVerif.Lemmas.Globals
 import CssVerif.Lemmas.GlobalsSites
+import CssVerif.Gen.C12Grammars
 /-!
 # C12 — no hidden state: history-independent results, global modes restored
 
@@ -18,6 +19,50 @@ open CssVerif.GProd CssVerif.Globals
 
 /-- the table regenerated from the sources on this run is the table the model was written against -/
 theorem sites_as_modelled : CssVerif.Gen.C12.sites = expectedSites := by decide +kernel
+
+/-! ## the tie (a'): the grammars cssutils really uses, captured from the live objects on this run
+
+`Gen.C12.realEnv` holds every `Sequence/Choice/Prod` tree that reached `ProdParser.parse` while a fixed set of
+inputs was parsed (MediaList, MediaQuery alone and as a list member, PropertyValue and all value classes,
+CSSVariablesDeclaration, MarginRule, a sheet with every rule kind), with all flags and with the links
+"this production's `toSeq` started that grammar". What a production accepts is not captured; the three
+facts below do not depend on it (`wfEnv_shape`, `envPartof_shape`). -/
+
+/-- every production that starts a hand-back child goes on with the loop -/
+theorem real_grammars_keep_handback_discipline : wfEnv CssVerif.Gen.C12.realEnv = true := by decide +kernel
+
+/-- no grammar that is ever used stand-alone has a `stopIfNoMoreMatch` production -/
+theorem real_standalone_grammars_never_hand_back :
+    CssVerif.Gen.C12.standalone.all (fun k => !(envPartof CssVerif.Gen.C12.realEnv k)) = true := by decide +kernel
+
+/-- the hand-back protocol is in use (non-vacuity): some grammar hands tokens back, every such grammar is a
+`MediaQuery`, and it was only ever reached as the child of another parser -/
+theorem real_handback_grammar_is_the_media_query_in_a_list :
+    (List.range CssVerif.Gen.C12.realEnv.length).any (envPartof CssVerif.Gen.C12.realEnv) = true ∧
+    (List.range CssVerif.Gen.C12.realEnv.length).all (fun k =>
+      !(envPartof CssVerif.Gen.C12.realEnv k) ||
+      (CssVerif.Gen.C12.grammarNames[k]? == some "MediaQuery" && !(CssVerif.Gen.C12.standalone.contains k))) = true := by
+  decide +kernel
+
+/-- T12.2 for the grammars of the code base: whatever their productions accept (`shape env = realEnv`), a
+stand-alone call of any grammar that is used stand-alone leaves `savedTokens` empty, returning or raising -/
+theorem real_engine_no_residue (env : Env) (hshape : shape env = CssVerif.Gen.C12.realEnv) (fuel k : Nat)
+    (hk : k ∈ CssVerif.Gen.C12.standalone) (src : Stream) (g : PG) (hs : g.saved = [])
+    (hc : (ctor env fuel k src g).out ≠ .noFuel ∧ (ctor env fuel k src g).out ≠ .unsupported) :
+    (ctor env fuel k src g).g.saved = [] := by
+  have hwf : wfEnv env = true := by
+    rw [← wfEnv_shape, hshape]; exact real_grammars_keep_handback_discipline
+  have hp : envPartof env k = false := by
+    rw [← envPartof_shape, hshape]
+    have := real_standalone_grammars_never_hand_back
+    rw [List.all_eq_true] at this
+    simpa using this k hk
+  obtain ⟨_, hb⟩ := ctor_handback env hwf fuel k src g hs
+  rcases hb with hb | hb | hb | hb
+  · exact absurd hb hc.1
+  · exact absurd hb hc.2
+  · exact hb
+  · rw [hp] at hb; simp at hb
 
 /-! ## T12.2 — `savedTokens` and the push-back queue (engine level, all grammars, all call trees) -/
 
